@@ -268,24 +268,45 @@ class SignatureInfo:
     # resulting `Partial`.
     parameters = list(self.parameters.values())
     positional_values = []
+    # Positional parameters without a value that have been passed over so far.
+    # A later positional value can only be passed if these are filled in first
+    # (otherwise it would be bound to an earlier parameter).
+    skipped = []
+
+    def add_positional(value):
+      for skipped_param in skipped:
+        if skipped_param.default is skipped_param.empty:
+          raise TypeError(
+              'Cannot pass a positional argument after the positional '
+              f'parameter {skipped_param.name!r}, which has no value set and '
+              'no default.'
+          )
+        positional_values.append(skipped_param.default)
+      skipped.clear()
+      positional_values.append(value)
+
     for index, param in enumerate(parameters):
       if param.kind == param.POSITIONAL_ONLY:
         if index in arguments:
-          positional_values.append(arguments[index])
+          add_positional(arguments[index])
           del arguments[index]
         elif include_no_value:
-          positional_values.append(self.get_default(index, NO_VALUE))
+          add_positional(self.get_default(index, NO_VALUE))
+        else:
+          skipped.append(param)
       if param.kind == param.POSITIONAL_OR_KEYWORD:
         if include_pos_or_kw_in_args or self.var_positional_start in arguments:
           if param.name in arguments:
-            positional_values.append(arguments[param.name])
+            add_positional(arguments[param.name])
             del arguments[param.name]
           elif include_no_value:
-            positional_values.append(self.get_default(index, NO_VALUE))
+            add_positional(self.get_default(index, NO_VALUE))
+          else:
+            skipped.append(param)
     if self.var_positional_start is not None:
       index = self.var_positional_start
       while index in arguments:
-        positional_values.append(arguments[index])
+        add_positional(arguments[index])
         del arguments[index]
         index += 1
     return positional_values, arguments
